@@ -800,7 +800,7 @@ class Quaternion(Vector):
         if parity:
             q[...,j] *= -1.
 
-        q *= np.sign(q[...,0])[...,np.newaxis]
+        q *= np.where(q[...,0] < 0., -1., 1.)[...,np.newaxis]
 
         return Quaternion(q, Qube.or_(ai._mask_, aj._mask_, ak._mask_))
 
